@@ -54,20 +54,21 @@ def _run(ctx):
            what="nothing on the load path reads XrefEntry::Compressed { container, .. }: when several object streams define the same object number the merged cross-reference table's designation is ignored and the first-come copy wins (a stale copy from an older revision can shadow the update)")
     # 3. history prefix
     sv = F.fn("IncrementalDocument::save_internal")
-    writes = [c for c in sv.calls if re.search(r"io::Write::(write_all|write_fmt|write)$", c.fn or "") or (c.local and "Writer::write" in c.cname)]
-    pre = [c for c in writes if re.search(r"io::Write::write_all$", c.fn or "") and "inner" in sv.oname(c.args[0], 3)]
-    ok = len(pre) == 1 and all(sv.dominates(pre[0].bb, w.bb) for w in writes)
+    # the first thing written (through the raw sink or through the counting wrapper) is the buffer get_prev_documents_bytes()
+    # returned, and that write dominates every other one
+    toks = lib.out_tokens(sv)
+    ok = bool(toks) and toks[0][0] == "val" and all(sv.dominates(toks[0][2], t[2]) for t in toks[1:])
     src = "?"
-    if pre:
-        o = lib.trace_operand(sv, pre[0].args[1])
+    if toks and toks[0][0] == "val":
+        o = lib.trace_operand(sv, toks[0][1])
         p = op_place(o)
         src = sv.oname(o, 4)
-        if p is not None and not p["p"]:
-            d = [x for x in sv.defs.get(p["l"], []) if x[2] != "proj"]
+        if p is not None and not [e for e in p["p"] if e != "*"]:
+            d = [x for x in sv.defs.get(sv.root_place(p, through_names=True)["l"], []) if x[2] != "proj"]
             if len(d) == 1 and d[0][2] == "call":
                 src = lib.canon_callee(F, lib.CallSiteProxy(sv, d[0][3])) if hasattr(lib, "CallSiteProxy") else (d[0][3]["f"].get("res") or d[0][3]["f"].get("fn"))
     okp = ok and re.search(r"get_prev_documents_bytes$", src or "") is not None
-    ctx.ob("R-ORDER", "history-prefix-unchanged", okp, "the first write is inner.write_all(<result of get_prev_documents_bytes()>), unmodified", sv.where(),
+    ctx.ob("R-ORDER", "history-prefix-unchanged", okp, "the first write hands the result of get_prev_documents_bytes() to the sink, unmodified", sv.where(),
            what="IncrementalDocument::save_internal does not write the previously loaded bytes first and unchanged (first write takes `%s`): the history prefix is altered" % src)
     gp = F.fn("IncrementalDocument::get_prev_documents_bytes")
     rets = [gp.rvname(s["rv"], 4) for bi, si, s in gp.stmts() if "lhs" in s and s["lhs"]["l"] == 0]
